@@ -353,6 +353,30 @@ func c02BoundaryPrograms() (srcs []string, names []string) {
 		srcs = append(srcs, sb.String())
 		names = append(names, t.name)
 	}
+	// float64: every arithmetic operator with a LITERAL operand on either side (the shapes a constant-operand
+	// rewrite -- x / c into x * (1/c), x * 2 into x + x, ... -- would touch), over values where a differently
+	// rounded computation shows in the last place
+	{
+		var sb, mainb strings.Builder
+		sb.WriteString("package main\n\nimport \"fmt\"\n\n")
+		vals := []string{"0.1", "0.3", "1.0", "3.0", "7.0", "10.0", "2.5", "-3.7", "0.001", "49.0", "1000000.5", "123456.789", "5e-324", "1e308", "0.0"}
+		lits := []string{"3.0", "10.0", "0.3", "7.0", "1.1", "60.0", "49.0", "2.0", "0.5", "1e-3", "1e300"}
+		nf := 0
+		for _, op := range []string{"+", "-", "*", "/"} {
+			for _, l := range lits {
+				fmt.Fprintf(&sb, "func r%d(a float64) float64 {\n\tx := a\n\treturn x %s %s\n}\n", nf, op, l)
+				fmt.Fprintf(&sb, "func l%d(a float64) float64 {\n\tx := a\n\tif x == 0.0 {\n\t\treturn 0.0\n\t}\n\treturn %s %s x\n}\n", nf, l, op)
+				fmt.Fprintf(&sb, "func c%d(a float64) float64 {\n\tx := a\n\tx %s= %s\n\treturn x\n}\n", nf, op, l)
+				for _, v := range vals {
+					fmt.Fprintf(&mainb, "\tfmt.Println(\"r%d\", %s, r%d(%s))\n\tfmt.Println(\"l%d\", %s, l%d(%s))\n\tfmt.Println(\"c%d\", %s, c%d(%s))\n", nf, v, nf, v, nf, v, nf, v, nf, v, nf, v)
+				}
+				nf++
+			}
+		}
+		sb.WriteString("func main() {\n" + mainb.String() + "}\n")
+		srcs = append(srcs, sb.String())
+		names = append(names, "float64")
+	}
 	return
 }
 
